@@ -242,6 +242,8 @@ class Sim:
                        permit_delete=self.permit_delete, permit_overwrite=self.permit_overwrite)
             if r.get("if_match_present"):
                 req["if_match"] = self.etags.model_of(r["if_match_value"])
+                if r["method"] == "DELETE" and r["if_match_value"] == "*":
+                    req["if_match_present"] = False
             ans = self.ctx.driver.ask1(req)
             mst = ans["status"]
             # 403 NOT_ALLOWED is rewritten to 401 for anonymous users by the gate
